@@ -356,9 +356,9 @@ func (c *constFlow) regexes(v ssa.Value, env *cfEnv, depth int, out map[string]b
 	return false
 }
 
-// visitCalls walks fn and, context-sensitively, its in-module static callees and closures, calling visit
-// for every call instruction with the environment that binds the enclosing function's parameters.
-func visitCalls(fn *ssa.Function, env *cfEnv, depth int, stack map[*ssa.Function]bool, visit func(c *ssa.CallCommon, in ssa.Instruction, env *cfEnv)) {
+// visitInstrs walks fn and, context-sensitively, its in-module static callees and closures, calling visit
+// for every instruction with the environment that binds the enclosing function's parameters.
+func visitInstrs(fn *ssa.Function, env *cfEnv, depth int, stack map[*ssa.Function]bool, visit func(in ssa.Instruction, env *cfEnv)) {
 	if fn == nil || fn.Blocks == nil || depth > 5 || stack[fn] {
 		return
 	}
@@ -366,6 +366,7 @@ func visitCalls(fn *ssa.Function, env *cfEnv, depth int, stack map[*ssa.Function
 	defer delete(stack, fn)
 	for _, b := range fn.DomPreorder() {
 		for _, in := range b.Instrs {
+			visit(in, env)
 			if mc, ok := in.(*ssa.MakeClosure); ok {
 				cf := mc.Fn.(*ssa.Function)
 				ne := &cfEnv{params: map[*ssa.Parameter]cfBind{}, free: map[*ssa.FreeVar]cfBind{}}
@@ -374,7 +375,7 @@ func visitCalls(fn *ssa.Function, env *cfEnv, depth int, stack map[*ssa.Function
 						ne.free[fv] = cfBind{mc.Bindings[i], env}
 					}
 				}
-				visitCalls(cf, ne, depth+1, stack, visit)
+				visitInstrs(cf, ne, depth+1, stack, visit)
 				continue
 			}
 			ci, ok := in.(ssa.CallInstruction)
@@ -382,7 +383,6 @@ func visitCalls(fn *ssa.Function, env *cfEnv, depth int, stack map[*ssa.Function
 				continue
 			}
 			cc := ci.Common()
-			visit(cc, in, env)
 			f := cc.StaticCallee()
 			if f == nil || !inModule(f) || f.Blocks == nil {
 				continue
@@ -396,9 +396,60 @@ func visitCalls(fn *ssa.Function, env *cfEnv, depth int, stack map[*ssa.Function
 					ne.params[prm] = cfBind{cc.Args[i], env}
 				}
 			}
-			visitCalls(f, ne, depth+1, stack, visit)
+			visitInstrs(f, ne, depth+1, stack, visit)
 		}
 	}
+}
+
+func visitCalls(fn *ssa.Function, env *cfEnv, depth int, stack map[*ssa.Function]bool, visit func(c *ssa.CallCommon, in ssa.Instruction, env *cfEnv)) {
+	visitInstrs(fn, env, depth, stack, func(in ssa.Instruction, env *cfEnv) {
+		if ci, ok := in.(ssa.CallInstruction); ok {
+			visit(ci.Common(), in, env)
+		}
+	})
+}
+
+// globalLoaded: v is (through parameters, closures, phis and conversions) the value loaded from a package-level variable.
+func globalLoaded(v ssa.Value, env *cfEnv, depth int) *ssa.Global {
+	if depth > 8 {
+		return nil
+	}
+	switch x := v.(type) {
+	case *ssa.UnOp:
+		if x.Op.String() == "*" {
+			if g, ok := x.X.(*ssa.Global); ok {
+				return g
+			}
+			if fv, ok := x.X.(*ssa.FreeVar); ok {
+				if b, ok := env.freeVar(fv); ok {
+					if g, ok := b.v.(*ssa.Global); ok {
+						return g
+					}
+				}
+			}
+		}
+	case *ssa.Parameter:
+		if b, ok := env.param(x); ok {
+			return globalLoaded(b.v, b.env, depth+1)
+		}
+	case *ssa.FreeVar:
+		if b, ok := env.freeVar(x); ok {
+			return globalLoaded(b.v, b.env, depth+1)
+		}
+	case *ssa.ChangeType:
+		return globalLoaded(x.X, env, depth+1)
+	case *ssa.Phi:
+		var g *ssa.Global
+		for _, e := range x.Edges {
+			ge := globalLoaded(e, env, depth+1)
+			if ge == nil || (g != nil && ge != g) {
+				return nil
+			}
+			g = ge
+		}
+		return g
+	}
+	return nil
 }
 
 // collectCallConsts: string constants that reach argument `pos` of calls whose callee name ends in `suffix`,
